@@ -8,6 +8,7 @@ Conventions: `c.v = {}` selects the repaired code (all `Variant` switches on).  
 `Win B x` = `B ≤ x < B + 2^31`: the timestamps/clock readings concerned lie in one window of less than 2^31 ms.
 -/
 import FlexModel.Geo.LocTLemmas
+import FlexModel.Geo.LocTConc
 import Generated.Mib
 import Generated.GnAddrKey
 
@@ -440,6 +441,77 @@ theorem model_keys_by_full_address (t : Table) (a b : Addr) (e : Entry) (hne : a
   ⟨lookup_insert_ne t a b e (Ne.symm hne), lookup_insert_self t a e⟩
 
 example : mid (5 + 281474976710656) = mid 5 ∧ (5 + 281474976710656 : Nat) ≠ 5 := by decide
+
+/-! ## Concurrent receptions (round 4): the clause "after a station processes a valid packet from S, S is present …
+and counts as a neighbour" under EVERY interleaving with other threads' location-table sections
+
+`LocTConc`: `new_<kind>_packet` = purge section, ONE `loc_t_lock` section with get-or-create and entry update
+(`core`), purge section; the environment = any merge of such sections of any number of other threads
+(`refresh_table`, receptions of any source incl. further packets of S, LS placeholders).  Which shape the source has
+is regenerated from /repo on every run (`Generated.Locks`, harness/gen_locks.py; `gen_loct.py` re-runs that generator
+for C08). -/
+
+open FlexModel.Geo.LocTConc in
+/-- **the seven `LocationTable.new_*_packet` functions update the LocTE inside the `loc_t_lock` section that creates
+it, and `refresh_table` is one section** (regenerated section shapes and call sites, `decide`d): moving an entry
+update out of the section again (seeded change C08-m4) re-opens this obligation and, through it,
+`first_single_hop_present_every_schedule`. -/
+theorem new_packet_updates_inside_creation_section : srcLocked = true := by decide +kernel
+
+open FlexModel.Geo.LocTConc in
+/-- **all schedules**: a station processes a single-hop packet (beacon / SHB) of `a` whose position vector `p` is not
+older than the lifetime (`now ≤ lim ≤ p.time + lifetime`), with the code shape of the source (`srcLocked`).  Whatever
+the table held before (any PV of `a` in the window), however the three sections of the reception are interleaved (`m`)
+with ANY sequence `env` of sections of other threads that happen not later than `lim` - purges, receptions of other
+sources and of `a` itself, LS placeholders - afterwards `a` is in the table with a position vector at least as new as
+`p` and is a neighbour. -/
+theorem first_single_hop_present_every_schedule (c : Cfg) (hv : c.v = {}) (k : Kind) (hk : k.singleHop = true)
+    (a : Addr) (p : PV) (sn now B lim : Nat) (hp : Win B p.time) (hlim : lim ≤ p.time + c.lifetimeMs)
+    (hnow : Win B now) (hnl : now ≤ lim) (s0 : CS) (hu : Uniq s0.t) (hi : SrcInv a B s0.t)
+    (env m : List Blk) (henv : ∀ b ∈ env, EnvOK a B lim b)
+    (hm : Interleave (rxBlocks srcLocked k a p sn now) env m) :
+    ∃ e, lookup (crun c s0 m).t a = some e ∧ e.hasPV = true ∧ e.isNeighbour = true ∧ p.time ≤ e.pv.time := by
+  rw [new_packet_updates_inside_creation_section] at hm
+  simp only [rxBlocks, if_true] at hm
+  obtain ⟨e0, e1, e2, e3, h1, h2⟩ := interleave_three hm
+  subst h1 h2
+  have hall : ∀ (l : List Blk), (∀ b ∈ l, b ∈ e0 ++ e1 ++ e2 ++ e3) → ∀ b ∈ l, EnvOK a B lim b :=
+    fun l hl b hb => henv b (hl b hb)
+  obtain ⟨e, g1, g2, g3, g4, _⟩ := locked_segments c hv k hk a p sn now B lim hp hlim hnow hnl s0 hu hi e0 e1 e2 e3
+    (hall e0 (by intro b hb; simp [hb])) (hall e1 (by intro b hb; simp [hb])) (hall e2 (by intro b hb; simp [hb]))
+    (hall e3 (by intro b hb; simp [hb]))
+  exact ⟨e, g1, g2, g3, g4⟩
+
+open FlexModel.Geo.LocTConc in
+/-- non-vacuity: cold source 5, beacon stamped 100 000 received at 100 040, lifetime 20 s; another thread purges
+between every two sections of the reception and receives a TSB of station 6: hypotheses hold, 5 is a neighbour -/
+example :
+    let c : Cfg := { self := 1, lifetimeMs := 20000, dplLen := 8 }
+    let m : List Blk := [.refresh 100040, .refresh 100041, .core .beacon 5 { time := 100000 } 0, .refresh 100042,
+      .core .tsb 6 { time := 100010 } 3, .refresh 100040, .refresh 120000]
+    Interleave (rxBlocks srcLocked .beacon 5 { time := 100000 } 0 100040)
+      [.refresh 100041, .refresh 100042, .core .tsb 6 { time := 100010 } 3, .refresh 120000] m ∧
+    neighbours (crun c {} m).t = [5] := by
+  refine ⟨?_, by decide⟩
+  rw [new_packet_updates_inside_creation_section]
+  exact .left (.right (.left (.right (.right (.left (.right .nil))))))
+
+open FlexModel.Geo.LocTConc in
+/-- **the old shape / seeded change C08-m4** (entry update outside the section): ONE purge of another thread between
+the creation of the LocTE and its first position vector drops the PV-less entry; the thread then updates an orphan.
+After a valid beacon of 5 has been processed, 5 is neither in the table nor a neighbour - while every schedule of the
+repaired shape keeps it (theorem above), and the same blocks without the foreign purge keep it too. -/
+theorem first_beacon_lost_unlocked_witness :
+    let c : Cfg := { self := 1, lifetimeMs := 20000, dplLen := 8 }
+    let rx := rxBlocks false .beacon 5 { time := 100000 } 0 100040
+    rx = [.refresh 100040, .create 5, .updateHeld .beacon 5 { time := 100000 } 0, .refresh 100040] ∧
+    -- schedule: purge, create ‖ foreign purge ‖ update, purge
+    lookup (crun c {} [.refresh 100040, .create 5, .refresh 100040, .updateHeld .beacon 5 { time := 100000 } 0,
+      .refresh 100040]).t 5 = none ∧
+    neighbours (crun c {} [.refresh 100040, .create 5, .refresh 100040, .updateHeld .beacon 5 { time := 100000 } 0,
+      .refresh 100040]).t = [] ∧
+    -- without pre-emption the old shape is fine
+    neighbours (crun c {} rx).t = [5] := by decide
 
 /-! ## The defects repaired by fixes/C08-* (old behaviour as `Variant` switches) -/
 
